@@ -2,6 +2,7 @@ import MosnVerif.Lemmas.FrameChk
 import MosnVerif.Lemmas.FrameRefine
 import MosnVerif.Model.FrameSpec
 import MosnVerif.Lemmas.FrameH2
+import MosnVerif.Lemmas.FrameHpack
 /-!
 # C08 — malformed input is contained (property theorems only)
 
@@ -79,6 +80,20 @@ theorem http2_no_overread_partial (maxRead : Nat) (parseOk groupOk : Bytes → B
     (h : MosnVerif.Model.FrameH2.h2Step maxRead parseOk groupOk st b = .frame f n) : 0 < n ∧ n ≤ b.length :=
   (MosnVerif.Model.FrameH2.h2Step_stable maxRead parseOk groupOk).pos st b f n h
 
+/-- **hpack_varint_no_overread**: an HPACK integer (`readVarInt`, every prefix size) that decodes consumed at least
+one byte and only bytes of the input (what remains is a proper suffix); otherwise the decoder asks for more or reports
+an overflow — on every byte string (the loop stops after at most 10 bytes). -/
+theorem hpack_varint_no_overread (n : Nat) (p : Bytes) (v : Nat) (r : Bytes)
+    (h : MosnVerif.Model.FrameHpack.readVarInt n p = .ok v r) : ∃ k, 0 < k ∧ k ≤ p.length ∧ r = p.drop k :=
+  MosnVerif.Model.FrameHpack.readVarInt_suffix n p v r h
+
+/-- **hpack_string_bounded**: a raw HPACK string is materialised only when all its announced bytes have arrived
+(never an allocation for an announced-but-absent length), is shorter than the input, and respects `maxStrLen`. -/
+theorem hpack_string_bounded (maxStrLen : Nat) (p s r : Bytes)
+    (h : MosnVerif.Model.FrameHpack.readString maxStrLen p = .ok s r) :
+    s.length + r.length < p.length ∧ (maxStrLen ≠ 0 → s.length ≤ maxStrLen) :=
+  MosnVerif.Model.FrameHpack.readString_bounded maxStrLen p s r h
+
 def toOutcome : Out → Outcome
   | .needMore => .needMore 0
   | .frame n => .frame n
@@ -110,5 +125,11 @@ example : (chkBolt false (boltReq.set 17 11 ++ [0])).out = .error 36 := by decid
 example : (chkBolt false (boltReq.set 1 9)).out = .error 0 := by decide
 example : (chkThrift (fun _ => true) [0,0,0,2,0xda,0xbc]).out = .error 0 := by decide
 example : (chkTars (fun _ => true) [0,0,0,3,1,2,3]).out = .needMore := by decide
+
+-- HPACK: a 10-byte continuation run overflows, a length beyond the received bytes asks for more (DecodeFull: error)
+example : MosnVerif.Model.FrameHpack.readVarInt 7 [0x7f, 0x83, 0x01] = .ok 258 [] := by decide
+example : MosnVerif.Model.FrameHpack.readVarInt 7 [0x7f,0x80,0x80,0x80,0x80,0x80,0x80,0x80,0x80,0x80,0x01] = .overflow := by decide
+example : MosnVerif.Model.FrameHpack.decodeFull 0 [0x10, 1, 97, 2, 98, 99] = .ok [(1, 2)] := by decide
+example : MosnVerif.Model.FrameHpack.decodeFull 0 [0x10, 1, 97, 0x7f, 0xff, 0xff, 0x03, 98] = .err := by decide
 
 end MosnVerif.Props.C08
